@@ -640,11 +640,26 @@ package gen
 //@ template V in int32 int64 uint32 uint64 float32 float64 bool string
 //@ functype func(*GEN.REC, []{V})
 //@   modifies allexcept("GEN.ParquetReader")
+// C01: assembling one record consumes at least one and at most all of the remaining level
+// entries, and never more values than entries.
 //@ functype func(*GEN.REC, []{V}, []uint8, []uint8) (int, int)
-//@   modifies allexcept("GEN.ParquetReader")
+//@   modifies allexcept("GEN.ParquetReader", "impl:GEN.Field")
+//@   ensures[C01] #arg2 >= 1 ==> 1 <= res1 && res1 <= #arg2 && 0 <= res0 && res0 <= res1
 //@ end template
 //@ loop write*#*
-//@   invariant true
+//@   invariant[C01] 0 <= rangeindex + 1 && rangeindex + 1 <= #defs && nLevels == rangeindex + 1 && 0 <= nVals && nVals <= nLevels
+
+// ... and Scan hands exactly that prefix over: while levels remain every Scan consumes at least
+// one of them, and the repetition levels stay aligned with the definition levels.
+//@ template T in Int32 Int64 Uint32 Uint64 Float32 Float64 String Bool
+//@ func (*{T}OptionalField).Scan
+//@   verify[C01]
+//@   requires f != nil
+//@   modifies allexcept("GEN.ParquetReader")
+//@   ensures[C01] old(#f.Defs) == 0 ==> #f.Defs == 0 && #f.vals == old(#f.vals)
+//@   ensures[C01] old(#f.Defs) >= 1 ==> #f.Defs < old(#f.Defs)
+//@   ensures[C01] old(#f.Defs) >= 1 && old(#f.Reps) == old(#f.Defs) ==> #f.Reps == #f.Defs
+//@ end template
 
 //@ template T in Int32 Int64 Uint32 Uint64 Float32 Float64
 //@ end template
